@@ -82,15 +82,15 @@ def netlists(draw, **kw):
                            min_size=nst, max_size=nst))
     raw_po = draw(st.lists(st.integers(0, 1 << 16), min_size=0, max_size=cfg['po_taps']))
     raw_w = draw(st.integers(0, (1 << 62)))
-    rev = draw(st.sampled_from(list(range(32))))      # bit 0: gate nodes created in reverse order, bit 1: fork chains created downstream first, bit 2: state elements created last one first, bit 3: interface read before the ports get their final order, bit 4: bench-style output ports sit at the end of their fork chain
+    rev = draw(st.sampled_from(list(range(64))))      # bit 0: gate nodes created in reverse order, bit 1: fork chains created downstream first, bit 2: state elements created last one first, bit 3: interface read before the ports get their final order, bit 4: bench-style output ports sit at the end of their fork chain, bit 5: a flip-flop created last moves to node index 0 when a placeholder node is removed
     port_perm = draw(st.integers(0, 1 << 30))
     nl = make_netlist(npi, style, raw_g, raw_st, raw_po, raw_w, rev, port_perm, cfg)
     # floating nets: an unconnected operand pin may instead hang on a fork that nothing drives (what the Verilog reader builds for a wire
     # without driver) - it reads 0 all the same. Only pins below the gate's arity, so that the primitive stays the same.
     if cfg.get('floating', True):
-        flt = draw(st.sampled_from([0, 0, 0, 1, 2]))
+        flt = draw(st.sampled_from([0, 0, 0, 0, 0, 0, 1, 2, 3, 4]))
         if flt:
-            nl['flt'] = flt         # 1: a fork of its own per pin, 2: one undriven fork shared by all such pins
+            nl['flt'] = flt         # 1: a fork of its own per pin, 2: one undriven fork shared by all such pins; 3, 4: the same, but the fork had a driver that was removed again (pin list [None])
     return nl
 
 
@@ -129,7 +129,7 @@ def make_netlist(npi, style, raw_g, raw_st, raw_po, raw_w, rev, port_perm, cfg):
             states[k]['d'] = f's{(k + 1 + (rd >> 2) % (len(states) - 1)) % len(states)}'
         if cfg['clock_pins'] and fl & 16:
             states[k]['c'] = every[rc % len(every)]
-    nl = dict(pi=npi, st=states, g=gates, po=[], style=style, w={}, ports=[], rev=bool(rev & 1), frev=bool(rev & 2), strev=bool(rev & 4), peek=bool(rev & 8), pdeep=bool(rev & 16))
+    nl = dict(pi=npi, st=states, g=gates, po=[], style=style, w={}, ports=[], rev=bool(rev & 1), frev=bool(rev & 2), strev=bool(rev & 4), peek=bool(rev & 8), pdeep=bool(rev & 16), movedff=bool(rev & 32))
     # outputs
     allsig = [s for s in avail]
     po = []
